@@ -6,7 +6,7 @@ import re
 import vlib
 
 COMMON_TRUST = [
-    "Kani 0.68.0 / CBMC 6.11.0 / CaDiCaL (bit-precise symbolic execution + SAT), rustc front end",
+    "Kani 0.68.0 / CBMC 6.11.0 / MiniSat2 (bit-precise symbolic execution + SAT; per-harness solver in coverage.harnesses[].backend), rustc front end",
     "Kani's models of __rust_alloc/__rust_realloc/__rust_dealloc, memcpy/memmove, atomics executed sequentially",
     "allocator stubs v_alloc/v_realloc/v_dealloc in kani/verif_repr.rs (thin wrappers; refuse any request nondeterministically, always above 2^46 bytes)",
     "generators any_inline/any_static/any_heap produce exactly the well-formed states (wf); pre-state capacity <= 2^16 (quick) / 2^40 (thorough)",
@@ -67,7 +67,7 @@ def evidence(pid, tier, seed, meta, obligations, n_obl, n_dis, harness_rows, ver
     cov = {
         "obligations": n_obl,
         "discharged": n_dis,
-        "checker_cmd": "cd <scratch copy of /repo + injected cfg(kani) modules> && cargo kani -Z stubbing -Z function-contracts -Z unstable-options --harness <h> --exact --no-assertion-reach-checks ; verus <extracted>.rs --output-json",
+        "checker_cmd": "cd <scratch copy of /repo + injected cfg(kani) modules> && cargo kani -Z stubbing -Z function-contracts -Z unstable-options --harness <h> --exact --no-assertion-reach-checks --solver minisat ; verus <extracted>.rs --output-json",
         "trusted_base": COMMON_TRUST + (VERUS_TRUST if verus_rows else []) + meta.get("trust", []),
         "explanation": meta.get("claim", ""),
         "samples": samples,
